@@ -147,6 +147,9 @@ pub enum RequestCreationError {
 
     /// Error while reading data from the socket during the creation of the `Request`.
     CreationIoError(IoError),
+
+    /// The client sent a `Content-Length` header whose value is not a plain decimal number.
+    InvalidContentLength,
 }
 
 impl From<IoError> for RequestCreationError {
@@ -191,10 +194,24 @@ where
         // header must be ignored (RFC2616 #4.4)
         None
     } else {
-        headers
+        match headers
             .iter()
             .find(|h: &&Header| h.field.equiv("Content-Length"))
-            .and_then(|h| FromStr::from_str(h.value.as_str()).ok())
+        {
+            None => None,
+            Some(h) => {
+                // only `1*DIGIT` is a valid value (`usize::from_str` alone would also accept a
+                // leading `+`); anything else must not be mistaken for "no body"
+                let value = h.value.as_str();
+                if !value.bytes().all(|b| b.is_ascii_digit()) {
+                    return Err(RequestCreationError::InvalidContentLength);
+                }
+                Some(
+                    usize::from_str(value)
+                        .map_err(|_| RequestCreationError::InvalidContentLength)?,
+                )
+            }
+        }
     };
 
     // true if the client sent a `Expect: 100-continue` header
